@@ -76,7 +76,9 @@ Record task := {
   t_prompt : bool;
   t_dir : string;              (* "" = no dir: *)
   t_ncmds : nat;               (* commands 0 .. n-1, each appends (task, i) to the trace *)
-  t_outputs : list path        (* files the last command writes once every command succeeded *)
+  t_outputs : list path;       (* files the last command writes once every command succeeded *)
+  t_subguard : option path     (* Some fl: the first command is `task: child`, a task without sources whose
+                                  precondition is [test -f fl] and whose one command appends (task, n) to the trace *)
 }.
 Definition project := list task.
 
@@ -91,16 +93,19 @@ Record variant := {
   v_ts_exact : bool;        (* timestamp: the record is the hash of (name, mtime) of every source, not a marker mtime *)
   v_ts_gen_exist : bool;    (* timestamp: every generates pattern must match a file   (7.9) *)
   v_dry_mkdir_guard : bool; (* --dry does not create the task's dir                   (7.18) *)
-  v_force_records : bool    (* a successful --force run records the fingerprint too *)
+  v_force_records : bool;   (* a successful --force run records the fingerprint too *)
+  v_dry_fail_guard : bool   (* the statusOnError after a failing command is skipped in dry mode (41513bc) *)
 }.
 
 Definition repaired : variant :=
   {| v_ts_rollback := true; v_prompt_rollback := true; v_listjson_dry := true; v_safe := true;
-     v_fp_exact := true; v_ts_exact := true; v_ts_gen_exist := true; v_dry_mkdir_guard := true; v_force_records := true |}.
+     v_fp_exact := true; v_ts_exact := true; v_ts_gen_exist := true; v_dry_mkdir_guard := true; v_force_records := true;
+     v_dry_fail_guard := true |}.
 
 Definition pinned : variant :=
   {| v_ts_rollback := false; v_prompt_rollback := false; v_listjson_dry := false; v_safe := false;
-     v_fp_exact := false; v_ts_exact := false; v_ts_gen_exist := false; v_dry_mkdir_guard := false; v_force_records := false |}.
+     v_fp_exact := false; v_ts_exact := false; v_ts_gen_exist := false; v_dry_mkdir_guard := false; v_force_records := false;
+     v_dry_fail_guard := false |}.
 
 (* ------------------------------------------------------------------ *)
 (* operations                                                          *)
@@ -351,6 +356,12 @@ Section Oracles.
     | _ => ok
     end.
 
+  (* the guarded sub-call (first command of the task) *)
+  Definition guard_ok (s : state) (t : task) : bool :=
+    match t_subguard t with Some fl => has_key fl (fs s) | None => true end.
+  Definition child_trace (s : state) (tid : nat) (t : task) : state :=
+    match t_subguard t with Some _ => with_trace s ((tid, t_ncmds t) :: trace s) | None => s end.
+
   Definition is_prompt_no (o : outcome) : bool := match o with PromptNo => true | _ => false end.
 
   (* Executor.RunTask for one directly called task without deps *)
@@ -367,9 +378,13 @@ Section Oracles.
         ((if v_prompt_rollback v then on_error v s2 t else s2), RDeclined)
       else
         let s3 := if dry && v_dry_mkdir_guard v then s2 else mkdir s2 (t_dir t) in
-        if dry then (s3, RDry)
+        (* the sub-call is followed in dry mode too: the callee's precondition is evaluated, and when it
+           fails the command loop of the caller sees a failing command (exit 201) *)
+        if negb (guard_ok s t) then
+          ((if dry && v_dry_fail_guard v then s3 else on_error v s3 t), RFailed)
+        else if dry then (s3, RDry)
         else
-          run_cmds v now f0 force s3 tid t o.
+          run_cmds v now f0 force (child_trace s3 tid t) tid t o.
 
   (* ToEditorOutput: the check of every listed task *)
   Definition list_json (v : variant) (now : N) (s : state) (p : project) : state :=
